@@ -148,4 +148,108 @@ theorem delHeadCore_err (da : Bool) (olds : List (Nat × List String)) (disk : L
       · rename_i _ hr hda
         simp [hr, hda] at h
 
+
+/-! ### dict helpers -/
+
+theorem keys_dictSet {α : Type} (k : Nat) (v : α) : ∀ (l : List (Nat × α)),
+    keys (dictSet k v l) = if k ∈ keys l then keys l else keys l ++ [k] := by
+  intro l
+  induction l with
+  | nil => simp [dictSet, keys]
+  | cons e t ih =>
+    obtain ⟨k', v'⟩ := e
+    unfold dictSet
+    by_cases h : k' = k
+    · subst h; simp [keys]
+    · simp only [h, if_false]
+      have ih' := ih
+      simp only [keys] at ih' ⊢
+      simp only [List.map_cons, List.mem_cons, ih']
+      have hk : ¬ k = k' := fun e => h e.symm
+      by_cases hm : k ∈ List.map (fun x => x.1) t
+      · simp [hm]
+      · simp [hm, hk]
+
+theorem mem_keys_dictSet {α : Type} (k : Nat) (v : α) (l : List (Nat × α)) (q : Nat) :
+    q ∈ keys (dictSet k v l) ↔ q = k ∨ q ∈ keys l := by
+  rw [keys_dictSet]
+  by_cases h : k ∈ keys l
+  · simp only [h, if_true]
+    constructor
+    · exact Or.inr
+    · rintro (rfl | h') <;> assumption
+  · simp only [h, if_false, List.mem_append, List.mem_singleton]
+    exact Or.comm
+
+theorem length_dictSet {α : Type} (k : Nat) (v : α) (l : List (Nat × α)) :
+    (dictSet k v l).length = if k ∈ keys l then l.length else l.length + 1 := by
+  have h := congrArg List.length (keys_dictSet k v l)
+  simp only [keys, List.length_map] at h
+  rw [h]
+  by_cases hk : k ∈ keys l
+  · have hk' : k ∈ List.map (fun x => x.fst) l := hk
+    simp [hk, hk']
+  · have hk' : k ∉ List.map (fun x => x.fst) l := hk
+    simp [hk, hk']
+
+theorem lookup_mem {α : Type} (k : Nat) : ∀ (l : List (Nat × α)) (v : α), lookup k l = some v → (k, v) ∈ l := by
+  intro l
+  induction l with
+  | nil => intro v h; simp [lookup] at h
+  | cons e t ih =>
+    intro v h
+    obtain ⟨k', v'⟩ := e
+    unfold lookup at h
+    split at h
+    · rename_i hk
+      simp only [Option.some.injEq] at h
+      subst hk; subst h
+      exact List.mem_cons_self
+    · exact List.mem_cons_of_mem _ (ih v h)
+
+theorem lookup_keys {α : Type} (k : Nat) (l : List (Nat × α)) (v : α) (h : lookup k l = some v) : k ∈ keys l := by
+  have := lookup_mem k l v h
+  exact List.mem_map.mpr ⟨(k, v), this, rfl⟩
+
+/-! ### `delHead`, `delBlock` -/
+
+/-- what the delete_old block does, case by case -/
+theorem delBlock_cases (s : St) (pnOld : Nat) (adr : List String) :
+    (qualifies s pnOld = false ∧ delBlock s pnOld adr = (s, none)) ∨
+    (qualifies s pnOld = true ∧ ¬ ((s.pnOlds.length : Int) > (s.n : Int) - 2) ∧
+      delBlock s pnOld adr = ({ s with pnOlds := dictSet pnOld adr s.pnOlds }, none)) ∨
+    (qualifies s pnOld = true ∧ ((s.pnOlds.length : Int) > (s.n : Int) - 2) ∧ (delHead s).2 ≠ none ∧
+      delBlock s pnOld adr = delHead s) ∨
+    (qualifies s pnOld = true ∧ ((s.pnOlds.length : Int) > (s.n : Int) - 2) ∧ (delHead s).2 = none ∧
+      delBlock s pnOld adr =
+        (if (((delHead s).1.pnOlds.length : Int) ≤ (s.n : Int) - 2)
+          then { (delHead s).1 with pnOlds := dictSet pnOld adr (delHead s).1.pnOlds } else (delHead s).1, none)) := by
+  by_cases hq : qualifies s pnOld = true
+  · by_cases hl : ((s.pnOlds.length : Int) > (s.n : Int) - 2)
+    · cases hd : (delHead s).2 with
+      | some e =>
+        right; right; left
+        refine ⟨hq, hl, by simp, ?_⟩
+        unfold delBlock
+        simp only [hq, hl, if_true, hd]
+        rw [← hd]
+      | none =>
+        right; right; right
+        refine ⟨hq, hl, rfl, ?_⟩
+        unfold delBlock
+        simp only [hq, hl, if_true, hd]
+        have : (delHead s).1.n = s.n := rfl
+        rw [this]
+        split <;> rfl
+    · right; left
+      refine ⟨hq, hl, ?_⟩
+      have : (s.pnOlds.length : Int) ≤ (s.n : Int) - 2 := by omega
+      unfold delBlock
+      simp only [hq, hl, if_true, if_false, this]
+  · left
+    have : qualifies s pnOld = false := by simpa using hq
+    refine ⟨this, ?_⟩
+    unfold delBlock
+    simp [this]
+
 end Infretis.Store
